@@ -197,6 +197,25 @@ def observe(side):
   obs['timeout-then-read'] = [r, bytes(w.readAll(4)).decode()]
   w.close()
 
+  # 8. shutdown() on a connection the peer has reset / has closed gracefully
+  import socket as s_mod
+  for how, key in (('reset', 'shutdown-after-reset'), ('close', 'shutdown-after-fin')):
+    p = Peer([('read', 1), (how,)])
+    w8 = wrap(p.host, p.port)
+    w8.open()
+    w8.write(b'x')
+    pause(0.1)
+    try:
+      w8.readAll(1)
+    except Exception:  # noqa
+      pass
+    try:
+      w8._socket.handle.shutdown(s_mod.SHUT_RDWR)
+      obs[key] = 'ok'
+    except Exception as e:  # noqa
+      obs[key] = name(e)
+    w8.close()
+
   # 7. write after own close
   try:
     w.write(b'y')
